@@ -129,7 +129,7 @@ pub fn scenarios(tier: &str) -> Vec<Scenario> {
 
 pub fn run(tier: &str) -> ! {
 	let mut run = Run::new("C01", tier, "model_checking");
-	let budget = Budget::new(if tier == "thorough" { 3000.0 } else { 100.0 });
+	let budget = Budget::new(if tier == "thorough" { 1500.0 } else { 100.0 });
 	let scns = scenarios(tier);
 	run.set("rule", json!("breadth-first graph search over histories (commit from alphabet | stage P,R,F,E,K | reopen), one execution of the real Db per edge; a state is distinct by (in-memory digest, file bytes, model state, pipeline-model state); non-trivial = every state differs from all others in that identity"));
 	run.assumptions = vec![
